@@ -582,6 +582,7 @@ func (s *Sim) dupUndo(p *TPkt, sendSide bool) string {
 			return ch.Sim.RateLimitKeeper.AcknowledgeRateLimitedPacket(ctx, pk, errAck)
 		})
 		u := s.M[chain].UndoSend(k, p.Seq)
+		s.countUndo(u)
 		s.evs = append(s.evs, mev{Kind: "dup-undo-send", Undo: &u, P: p})
 		s.log("dup %s of %v (was %s) at keeper level err=%v", how, p, p.Terminal, o.Err)
 		s.C.Inc("duplicate_refund_callbacks_injected")
@@ -594,6 +595,7 @@ func (s *Sim) dupUndo(p *TPkt, sendSide bool) string {
 	k := s.recvKey(p)
 	o := ch.InBlock(func(ctx sdk.Context) error { return ch.Sim.RateLimitKeeper.UndoReceivePacket(ctx, pk) })
 	u := s.M[chain].UndoRecv(k, p.Seq)
+	s.countUndo(u)
 	s.evs = append(s.evs, mev{Kind: "dup-undo-recv", Undo: &u, P: p})
 	s.log("dup undo-receive of %v (recv %s) at keeper level err=%v", p, p.RecvResult, o.Err)
 	s.C.Inc("duplicate_refund_callbacks_injected")
